@@ -153,6 +153,8 @@ pub enum Cost {
     Medium,
     /// 10000 iterations / 64 MiB, 2 passes  (edge of the budget)
     Max,
+    /// 3 iterations / 9217 bytes (not a multiple of 1024: libsodium semantics round down to 9 KiB), 1 pass
+    Odd,
 }
 
 pub fn params_for<V: Full>(c: Cost) -> <V as PwWrapVersion>::Params {
@@ -163,6 +165,7 @@ pub fn params_for<V: Full>(c: Cost) -> <V as PwWrapVersion>::Params {
                 Cost::Small => 2,
                 Cost::Medium => 1000,
                 Cost::Max => 10000,
+                Cost::Odd => 3,
             };
             it.to_be_bytes().to_vec()
         }
@@ -172,6 +175,7 @@ pub fn params_for<V: Full>(c: Cost) -> <V as PwWrapVersion>::Params {
                 Cost::Small => (16 * 1024, 2),
                 Cost::Medium => (64 * 1024, 3),
                 Cost::Max => (64 * 1024 * 1024, 2),
+                Cost::Odd => (9 * 1024 + 1, 1),
             };
             let mut v = mem.to_be_bytes().to_vec();
             v.extend_from_slice(&time.to_be_bytes());
